@@ -231,6 +231,47 @@ def run(ctx: Context, rep) -> None:
             isinstance(v, ast.Call) and (dotted(v.func) or "").endswith(
                 "defaultdict") and v.args and dotted(v.args[0]) == "list"
             for v in store_inits)
+        def key_ensured(call_node) -> bool:
+            """`if k not in self.F: self.F[k] = <new container>` directly
+            before `self.F[k].append(..)`: the lookup cannot fail."""
+            st = call_node.stmt if getattr(call_node, "stmt", None) is not None \
+                else None
+            recv = call_node.ast.func.value
+            if st is None or not isinstance(recv, ast.Subscript):
+                return False
+            blk_owner = parent(st)
+            for fld in ("body", "orelse", "finalbody"):
+                blk = getattr(blk_owner, fld, None)
+                if isinstance(blk, list) and st in blk:
+                    i = blk.index(st)
+                    prev = blk[i - 1] if i > 0 else None
+                    if isinstance(prev, ast.If) and isinstance(
+                            prev.test, ast.Compare) and len(
+                                prev.test.ops) == 1 and isinstance(
+                                    prev.test.ops[0], ast.NotIn) and \
+                            ast.unparse(prev.test.left) == ast.unparse(
+                                recv.slice) and ast.unparse(
+                                    prev.test.comparators[0]) == ast.unparse(
+                                        recv.value) and any(
+                                isinstance(s, ast.Assign) and any(
+                                    ast.unparse(t) == ast.unparse(recv)
+                                    for t in s.targets) for s in prev.body):
+                        return True
+            return False
+
+        def ensured_in(stmt_ast, sub) -> bool:
+            if isinstance(stmt_ast, ast.Expr) and isinstance(
+                    stmt_ast.value, ast.Call) and isinstance(
+                        stmt_ast.value.func, ast.Attribute) and \
+                    stmt_ast.value.func.value is sub:
+                class _N:   # adapter for key_ensured
+                    pass
+                nn = _N()
+                nn.stmt = stmt_ast
+                nn.ast = stmt_ast.value
+                return key_ensured(nn)
+            return False
+
         fallible = []
         for n in after:
             if n in commits:
@@ -247,6 +288,7 @@ def run(ctx: Context, rep) -> None:
             elif n.kind in ("stmt", "test") and n.ast is not None and any(
                     isinstance(x, ast.Subscript) and isinstance(x.ctx, ast.Load)
                     and not (total_store and dotted(x.value) == f"self.{field}")
+                    and not ensured_in(n.ast, x)
                     for x in ast.walk(n.ast)
                     if not isinstance(n.ast, (ast.FunctionDef, ast.ClassDef))):
                 # subscript loads inside the commit statement itself are
@@ -260,7 +302,8 @@ def run(ctx: Context, rep) -> None:
                 break
             if c in after and c.kind == "call" and any(
                     isinstance(x, ast.Subscript)
-                    for x in ast.walk(c.ast.func.value)):
+                    for x in ast.walk(c.ast.func.value)) and \
+                    not key_ensured(c):
                 fallible.append(c)
         rep.ob("C18.commit", not fallible,
                loc=w.loc(fallible[0].ast) if fallible else w.loc(commits[0].ast),
